@@ -114,6 +114,10 @@ def run(prog, rep):
                     if cfg["n_pts"] > 1 and cls == "StockDrivenDSM" and h not in ("CPC", "CDC", "RPC"):
                         continue        # two-point quadrature in the stock-driven solvers: rational functions of sums; a few histories only
                     jobs.append(("history", c2, cls, h))
+    if rep.tier == "quick":      # four time items: the smallest grid with different interval lengths
+        for cls, sv in (("InflowDrivenDSM", None), ("StockDrivenDSM", "manual"), ("StockDrivenDSM", "lapack")):
+            for h in ("CPC", "CDC", "CZDC"):
+                jobs.append(("history", dict(n_t=4, labels=(), dist="NormalLifetime", over="number", n_pts=1, inflow_at="middle", **({"solver": sv} if sv else {})), cls, h))
     # equidistant grid + parameters that are first the same for all cohorts and then vary over time (a decision taken once, at
     # construction, on "all cohorts share one curve" is seen), and the reverse
     for dist in ("NormalLifetime", "FixedLifetime"):
